@@ -17,6 +17,10 @@
 (*   always: build_step(always_outdated=True)                                    *)
 (*   deps  : earlier target names (alias / cmd / test / default / install)       *)
 (*   dist  : FALSE for files declared with dist=False (C18)                      *)
+(*   mode  : for a copy whose input is the output of an earlier target: "copy" or "symlink"      *)
+(*           (copy_file(name, built_file, mode=...)); a symbolic link never has to be made again  *)
+(*           when what it points to changes, but whoever consumes it is as out of date as if it   *)
+(*           consumed the file itself                                                             *)
 (*   xdeps : earlier targets passed as extra_deps= of a linked target (its link step) or of a    *)
 (*           build_step                                                            *)
 (*   hdr   : TRUE for a linked target compiled with includes=[header_file('h2.h')]: every       *)
@@ -88,6 +92,8 @@ NeededMust(script, goal) == UNION { Upstream(script, g, "must") : g \in GoalSet(
 
 \* steps that run whenever they are needed: always_outdated build steps and commands (phony)
 Always(script) == { nm \in Targets(script) : LET d == Decl(script, nm) IN (d.kind = "step" /\ d.always) \/ d.kind = "cmd" }
+\* copies made as symbolic links: after the first build they need not run again
+SymCopies(script) == { nm \in Targets(script) : LET d == Decl(script, nm) IN d.kind = "copy" /\ d.mode = "symlink" }
 \* targets that have an action (an alias has none)
 Acts(script) == { nm \in Targets(script) : Decl(script, nm).kind # "alias" }
 
